@@ -528,10 +528,26 @@ func checkDiffCost(cfg *world.Config, o, n *version) []explore.Finding {
 
 // pairAccumulator merges findings from parallel pair checks.
 type pairAcc struct {
-	mu    sync.Mutex
-	found map[string]*report.Violation
-	pairs int64
-	nontr int64
+	mu      sync.Mutex
+	found   map[string]*report.Violation
+	pairs   int64
+	nontr   int64
+	samples []interface{}
+}
+
+// sample keeps a few concrete cases for the evidence file.
+func (a *pairAcc) sample(v interface{}) {
+	a.mu.Lock()
+	if len(a.samples) < 2 {
+		a.samples = append(a.samples, v)
+	}
+	a.mu.Unlock()
+}
+
+func (a *pairAcc) wantSample() bool {
+	a.mu.Lock()
+	defer a.mu.Unlock()
+	return len(a.samples) < 2
 }
 
 func (a *pairAcc) add(cfg *world.Config, check string, fs []explore.Finding, histDesc []string) {
@@ -557,6 +573,9 @@ func (a *pairAcc) add(cfg *world.Config, check string, fs []explore.Finding, his
 }
 
 func (a *pairAcc) flush(run *report.Run) {
+	for _, v := range a.samples {
+		run.AddSample(v)
+	}
 	sigs := make([]string, 0, len(a.found))
 	for s := range a.found {
 		sigs = append(sigs, s)
@@ -616,6 +635,10 @@ func C06(run *report.Run) {
 				atomic.AddInt64(&acc.nontr, 1)
 			}
 			cls := "old=" + sideClass(od.c, od.t, od.hist) + ",new=" + sideClass(nw.c, nw.t, nw.hist)
+			if len(od.hist) >= 3 && len(nw.hist) >= 3 && len(expectedDiff(od.c, nw.c)) >= 2 && acc.wantSample() {
+				got, _, _ := observeDiffIter(cfg, nw.t, od.t, -1, -1)
+				acc.sample(map[string]interface{}{"config": cfg.Name, "old_tree_built_by": cfg.DescribeHist(od.hist), "new_tree_built_by": cfg.DescribeHist(nw.hist), "DiffIter_reported": fmt.Sprint(got), "expected_from_contents": fmt.Sprint(expectedDiff(od.c, nw.c))})
+			}
 			fs := checkEntryDiff(cfg, od.t, nw.t, od.c, nw.c, cls, (i+j)%7 == 0 || n <= 400)
 			acc.add(cfg, "C06", fs, pairHist(cfg, od.hist, nw.hist))
 		})
@@ -756,6 +779,10 @@ func runVersionPairs(run *report.Run, check string, cfgs []*world.Config, judge 
 					atomic.AddInt64(&acc.nontr, 1)
 				}
 				fs := judge(cfg, vs[i], vs[j])
+				if len(vs[i].reach) >= 3 && len(vs[j].reach) >= 3 && vs[i].link != vs[j].link && acc.wantSample() {
+					evs, _, _ := observeDiffLinks(vs[j].t, vs[i].t)
+					acc.sample(map[string]interface{}{"config": cfg.Name, "old_version": vs[i].c.String(), "old_root": vs[i].link, "new_version": vs[j].c.String(), "new_root": vs[j].link, "nodes_reachable_old": len(vs[i].reach), "nodes_reachable_new": len(vs[j].reach), "DiffLinks_events": fmt.Sprint(evs)})
+				}
 				acc.add(cfg, check, fs, []string{fmt.Sprintf("old version %v", vs[i].c), fmt.Sprintf("new version %v", vs[j].c)})
 			}
 		})
@@ -837,6 +864,12 @@ func runVersionPairsSerial(run *report.Run, check string, cfgs []*world.Config, 
 							atomic.AddInt64(&acc.nontr, 1)
 						}
 						fs := judge(cfg, mine[i], mine[j])
+						if len(mine[i].reach) >= 3 && len(mine[j].reach) >= 3 && mine[i].link != mine[j].link && acc.wantSample() {
+							mine[i].w.Store.ResetLog()
+							mine[j].t.DiffIter(ctx, mine[i].t, func(a, r bool, k, av, rv interface{}) (bool, error) { return true, nil })
+							acc.sample(map[string]interface{}{"config": cfg.Name, "old_version": mine[i].c.String(), "new_version": mine[j].c.String(), "nodes_reachable_old": len(mine[i].reach), "nodes_reachable_new": len(mine[j].reach),
+								"loads_from_old_store_during_DiffIter": len(mine[i].w.Store.Calls("load"))})
+						}
 						acc.add(cfg, check, fs, []string{fmt.Sprintf("old version %v", mine[i].c), fmt.Sprintf("new version %v", mine[j].c)})
 					}
 				}
